@@ -123,6 +123,25 @@ pub fn run_freelist(seed: u64, cases: usize, out: &mut Sink) {
                     let wl: Vec<u32> = written.iter().map(|w| w.0).collect();
                     out.line(op.clone(), format!("ok alloc={} bump={} written={} portions={}", list_str(&handed), sim.bump(), list_str(&wl), portions_str(&after)));
                     let brief = format!("case {case} round {round} head={head} len={len} allocations={a} freed={f}");
+                    // ---- C10 reopen oracle (hook H14): the pages written so far, read back by the REAL `FreeList::read` from the new head, must
+                    // give the list the running handle holds — same portions in the same order and the same cached length (the length decides
+                    // whether `allocate` takes a page from the list or from the frontier)
+                    match sim.read_back(&format!("/dev/shm/nomt-verif-flread-{}-{case}-{round}", std::process::id())) {
+                        Ok((rlen, rportions)) => {
+                            out.count("fl_read_back");
+                            if rportions.len() > 1 {
+                                out.count("fl_read_back_multi_page");
+                            }
+                            if rportions != after {
+                                out.fail(format!("C10 free list read back from its pages differs from the list in memory: read {} portions (head {:?} items), memory {} ({brief})",
+                                    rportions.len(), rportions.last().map(|p| p.1.len()), after.len()));
+                            }
+                            if rlen != sim.len() {
+                                out.fail(format!("C10 free list read back from its pages reports length {rlen}, the running handle {} ({brief})", sim.len()));
+                            }
+                        }
+                        Err(e) => out.fail(format!("C10 free list cannot be read back from the pages it wrote: {e} ({brief})")),
+                    }
                     // ---- allocation oracle
                     let mut seen = BTreeSet::new();
                     for &h in &handed {
